@@ -25,19 +25,19 @@
 EXTENDS Naturals, Sequences, FiniteSets, TLC, Json
 
 CONSTANTS MaxStarts,    \* longest start list of definition A
-          MaxGoals,     \* longest goal list of definition A (<= 4: cursor kept modulo 12)
+          MaxGoals,     \* longest goal list of definition A
           StartFlags,   \* subset of {"ok", "inv", "oob"}
           GoalFlags,
           GoalKinds,    \* subset of {"states", "region"}: kinds SetGoal may install in A
           Budgets,      \* attempt budgets m of nextGoal(ptc): ptc fires once m samples were drawn
           Rebind        \* TRUE: second definition B, planner-side definition pointer, Use/Update
 
-ASSUME MaxGoals <= 4 /\ MaxStarts >= 0
+ASSUME MaxGoals >= 0 /\ MaxStarts >= 0
 
 VARIABLES starts,   \* Seq(flag): start states of definition A
           gkind,    \* "none" | "region" (not sampleable) | "states" (GoalStates / idle GoalLazySamples)
           goals,    \* Seq(flag): goal states of A (gkind = "states")
-          gpos,     \* GoalStates::samplePosition_ of A's goal, modulo 12
+          gpos,     \* GoalStates::samplePosition_ of A's goal (0..size: rolled over before use)
           ppdef,    \* what planner_->getProblemDefinition() returns: "none" | "A" | "B"
           bound,    \* pdef_: "none" | "A" | "B"
           added,    \* addedStartStates_
@@ -154,11 +154,11 @@ NextStart ==
 (* nextGoal(): plannerAlwaysTerminatingCondition, i.e. exactly one attempt.                 *)
 (*   if (sampled < max && canSample) { alloc temp;                                          *)
 (*       do { sampleGoal(temp); ++sampled; if ok return temp; } while (!ptc && sampled < max && canSample) } *)
-(* GoalStates::sampleGoal: pos = pos % size; copy states[pos]; ++pos                        *)
+(* GoalStates::sampleGoal: pos = pos % size (stored); copy states[pos]; ++pos               *)
 RECURSIVE Draw(_, _, _, _, _)
 Draw(gs, pos, cnt, drawn, m) ==
-    LET idx == (pos % Len(gs)) + 1
-        pos2 == (pos + 1) % 12
+    LET idx == (pos % Len(gs)) + 1      \* samplePosition_ = samplePosition_ % states_.size()
+        pos2 == (pos % Len(gs)) + 1     \* (the rolled-over value is stored), then ++samplePosition_
     IN  IF gs[idx] = "ok" THEN [ret |-> idx, pos |-> pos2, cnt |-> cnt + 1, skipped |-> drawn, idxs |-> {idx}]
         ELSE IF drawn + 1 < m /\ cnt + 1 < Len(gs)
              THEN LET r == Draw(gs, pos2, cnt + 1, drawn + 1, m) IN [r EXCEPT !.idxs = @ \cup {idx}]
@@ -202,7 +202,7 @@ ValidityOk == bound # "none" /\ Len(Starts(bound)) > 0 /\ Kind(bound) # "none"
 (* ---------------------------------- contract ---------------------------------- *)
 OkIdx(ss, upto) == {i \in 1..upto : ss[i] = "ok"}
 
-TypeOK == /\ added \in 0..(MaxStarts + 2) /\ sampled \in 0..4 /\ gpos \in 0..11
+TypeOK == /\ added \in 0..(MaxStarts + 2) /\ sampled \in 0..MaxGoals + 1 /\ gpos \in 0..MaxGoals + 1
           /\ bound \in {"none", "A", "B"} /\ ppdef \in {"none", "A", "B"}
 
 (* every valid in-bounds start seen so far was returned, exactly those (never an invalid one) *)
